@@ -223,3 +223,5 @@ var _ = fmt.Sprint
 func b64dec(s string) ([]byte, error) {
 	return base64.StdEncoding.DecodeString(s)
 }
+
+func base64Std(b []byte) string { return base64.StdEncoding.EncodeToString(b) }
